@@ -10,6 +10,7 @@ func init() {
 	vHarnesses["H_C13_probe_th"] = H_C13_probe_th
 	vHarnesses["H_C13_probe_ops"] = H_C13_probe_ops
 	vHarnesses["H_C13_ivf_t"] = H_C13_ivf_t
+	vHarnesses["H_C13_ivf_t_th"] = H_C13_ivf_t_th
 	vHarnesses["H_C13_ivf_t3"] = H_C13_ivf_t3
 	vHarnesses["H_C13_ivf_d2"] = H_C13_ivf_d2
 	vHarnesses["H_C13_untrained"] = H_C13_untrained
@@ -22,7 +23,8 @@ func H_C13_probe_th() { hC13(cfgC13{nlist: 2, n: 2, dim: 1, symTh: true, probes:
 func H_C13_probe_ops() {
 	hC13(cfgC13{nlist: 2, n: 3, dim: 1, ops: true, symK: true, filter: true, probes: []int{1, 0}})
 }
-func H_C13_ivf_t()  { hC13(cfgC13{nlist: 2, n: 2, dim: 1, symVecs: true, symK: true, symTh: true, symProbes: true, ops: true, filter: true}) }
+func H_C13_ivf_t()    { hC13(cfgC13{nlist: 2, n: 2, dim: 1, symVecs: true, symK: true, symProbes: true, filter: true}) }
+func H_C13_ivf_t_th() { hC13(cfgC13{nlist: 2, n: 2, dim: 1, symVecs: true, symTh: true, probes: []int{1, 0}}) }
 func H_C13_ivf_t3() { hC13(cfgC13{nlist: 3, n: 3, dim: 1, symVecs: true, symK: true, probes: []int{1, 2, 3}}) }
 func H_C13_ivf_d2() { hC13(cfgC13{nlist: 2, n: 2, dim: 2, symVecs: true, symK: true, symProbes: true}) }
 
